@@ -24,7 +24,8 @@ def crash_signature(res, flavour="plain"):
         for line in res.stderr_tail.splitlines():
             m = re.search(r"runtime error: (.*)$", line)
             if m and not san_kind:
-                san_kind = "UBSan " + m.group(1)[:60]
+                # values and addresses in the message vary from run to run (uninitialised reads): not part of the failure class
+                san_kind = "UBSan " + re.sub(r"0x[0-9a-f]+|-?\d+", "N", m.group(1))[:60]
             m = re.search(r"ERROR: AddressSanitizer: (\S+)", line)
             if m and not san_kind:
                 san_kind = "ASan " + m.group(1)
